@@ -70,6 +70,8 @@ type runLevelOutcome struct {
 	ReadCalls  int
 	SnkClose   int
 	UseAfter   []string
+	Filters    []packets.PacketFilterSpec // what the entry point asked the capture source to install, in order
+	FirstProbe []byte                     // the first probe the run wrote
 }
 
 func flowOfProbe(p []byte) (flowInfo, string, int) {
@@ -245,6 +247,10 @@ func runRunLevel(t *testing.T, c runLevelCase) runLevelOutcome {
 			out.SrcClose, out.SnkClose, out.UseAfter = wire.srcClose, wire.snkClose, append([]string(nil), wire.useAfter...)
 			wire.mu.Unlock()
 			wire.log.mu.Lock()
+			out.Filters = append(out.Filters, wire.log.filters...)
+			if len(wire.log.writes) > 0 {
+				out.FirstProbe = wire.log.writes[0].Pkt
+			}
 			out.WriteCalls = wire.log.counts["write"]
 			out.ReadCalls = wire.log.counts["read"]
 			wire.log.mu.Unlock()
